@@ -38,10 +38,10 @@ def handle (j : Json) : Json :=
         | .error e => Json.mkObj [("err", replayErrStr e)]
         | .ok g => graphJson g
       Json.mkObj [("err", match r.err with | some e => Json.str (errStr e) | none => Json.null),
-        ("writes", Json.arr (r.writes.map writeJson).toArray),
-        ("created", match r.outs.findSome? (·.created) with | some i => Json.str i | none => Json.null),
-        ("claimed", match r.outs.findSome? (·.claimed) with | some t => Json.str t.id | none => Json.null),
-        ("pruned", Json.arr ((r.outs.flatMap (·.pruned)).map Json.str).toArray),
+        ("writes", Json.arr ((r.write.toList).map writeJson).toArray),
+        ("created", match r.out.created with | some i => Json.str i | none => Json.null),
+        ("claimed", match r.out.claimed with | some t => Json.str t.id | none => Json.null),
+        ("pruned", Json.arr (r.out.pruned.map Json.str).toArray),
         ("post", post)]
   | _ => Json.mkObj [("err", "bad_op")]
 
